@@ -351,6 +351,11 @@ func (p *pgBoundValue) GetData(setting config.ColumnEncryptionSetting) ([]byte, 
 
 			decoded, err := utils.DecodeEscaped(p.data)
 			if err != nil {
+				// not a hex/octal escaped binary value: it is a plain text value (for example a string with
+				// a backslash or a line break), process it as is like literals in queries are processed
+				if err == utils.ErrDecodeOctalString {
+					return p.data, nil
+				}
 				return p.data, err
 			}
 			return decoded, nil
